@@ -238,6 +238,13 @@ func c16RoundTrips(kv map[string]string, conflict bool, want map[string]any, fai
 	defer func() { *failp = fail }()
 	{
 		for ei, encFn := range []dom.EncoderFunc{props.EncoderFn, common.DefaultFileEncoderProvider("y.properties")} {
+			// an earlier encode of OTHER content that failed half-way (a writer giving up after a few bytes)
+			_ = guard(func() {
+				_ = encFn(&failAfterW{n: 3}, map[string]any{"leftover.from.failed.write": "must-not-appear", "z": "1"})
+				c0 := dom.Builder().Container()
+				c0.AddValue("leftover.dom", dom.LeafNode("must-not-appear"))
+				_ = props.DomEncoderFn(&failAfterW{n: 3}, c0)
+			})
 			var b bytes.Buffer
 			if err := encFn(&b, toAnyMap(kv)); err != nil {
 				fail = append(fail, fmt.Sprintf("encoder %d failed: %v", ei, err))
